@@ -579,6 +579,24 @@ def run_tables(c, prog, S, D):
     for ty in ("hash_types::Txid",):
         v = (prog.consts.get("<%s as hashes::Hash>::DISPLAY_BACKWARD" % ty) or {}).get("val")
         c.inst("R7.reversed-hex", "%s::DISPLAY_BACKWARD (OutPoint text form parses through bitcoin::OutPoint, whose txid is displayed backward)" % ty, v == "true", "evaluated %s" % v, None, ty)
+    # ------------------------------------------------------------- R7 leaf readers accept everything the writer emits
+    # a hand-written string/bytes visitor may fail because a conversion it calls fails (hex, utf-8, fixed-length array, FromStr);
+    # an error return decided by a comparison on the decoded value rejects values the writer serializes without complaint
+    from ..analysis import err_returns
+    nleaf = 0
+    for fnp in sorted(prog.fns):
+        if not re.search(r"::visit_(str|bytes|borrowed_str|string|byte_buf|borrowed_bytes)$", fnp) or "::_::<impl" in fnp or "EnumVisitor" in fnp:
+            continue
+        fv = prog.fn(fnp)
+        odd = []
+        for e in err_returns(fv.body):
+            last = e[2][-1] if e[2] else None
+            if last is None or not (last[0].startswith("discr(") and last[1] in ("Err", "None")):
+                odd.append((str(e[1])[:80], last))
+        nleaf += 1
+        c.inst("R7.leaf-reader-total", fnp.rsplit("::", 1)[1], not odd,
+               "error returns not caused by a failing conversion: %s" % odd[:2], fv.where(), fnp)
+    c.floor("R7.leaf-reader-total", 25, "string/bytes visitors of the hand-written readers")
     # ------------------------------------------------------------- R8 outpoint / pset text
     OD = Fn(prog, "<transaction::OutPoint as std::fmt::Display>::fmt")
     OF = Fn(prog, "<transaction::OutPoint as std::str::FromStr>::from_str")
